@@ -140,6 +140,24 @@ impl<E: Effect, R: CommandReceiver<E>, S: EventSender<E>> Worker<E, R, S> {
         Ok(did_work)
     }
 
+    /// Verification hook: read access to this worker's executor.
+    #[cfg(feature = "verif")]
+    pub fn verif_executor(&self) -> &Executor<E> {
+        &self.executor
+    }
+
+    /// Verification hook: targets some process on another worker is waiting for.
+    #[cfg(feature = "verif")]
+    pub fn verif_awaited(&self) -> Vec<(ProcessId, Vec<ProcessId>)> {
+        let mut v: Vec<_> = self
+            .awaiters_for_target
+            .iter()
+            .map(|(k, a)| (*k, a.clone()))
+            .collect();
+        v.sort();
+        v
+    }
+
     /// Whether a process is queued to run immediately. Event-driven runtimes keep stepping while
     /// this is true and go idle once it is false (and no timeout is pending).
     pub fn has_runnable(&self) -> bool {
